@@ -5,7 +5,13 @@ use super::{Checker, Controller, Rule};
 use crate::base::{BlockType, StatNode, TokenResult};
 use crate::utils;
 use std::convert::TryInto;
+#[cfg(not(sentinel_verif))]
 use std::sync::{
+    atomic::{AtomicI64, Ordering},
+    Arc, Weak,
+};
+#[cfg(sentinel_verif)]
+use sentinel_verif_rt::sync::{
     atomic::{AtomicI64, Ordering},
     Arc, Weak,
 };
